@@ -1,12 +1,12 @@
-\* thorough exhaustive config B: 3 snaps (a, b gate; c only held), 5 steps
+\* thorough exhaustive config C: 2 snaps (both gate), boundary ticks {1,47,49,91d}, 7 steps
 CONSTANTS
-  Snaps <- MCSnaps3
+  Snaps <- MCSnaps2
   Gaters <- MCGaters
-  HoldSets <- MCHoldSets
+  HoldSets <- MCHoldSetsQ
   Ticks <- MCTicksQ
   SysDurs <- MCSysDurs
   ExplicitDurs <- MCNoDurs
-  MaxSteps = 5
+  MaxSteps = 7
 INIT Init
 NEXT Next
 CHECK_DEADLOCK FALSE
